@@ -177,8 +177,9 @@ def pmap(fn, items, procs: int | None = None, chunksize: int = 64, threads: int 
     if not items:
         return []
     procs = procs or min(os.cpu_count() or 4, 16)
-    if procs <= 1 or len(items) < 2 * procs:
+    if procs <= 1:
         return [fn(x) for x in items]
+    procs = min(procs, len(items))          # always a fresh pool: workers must see the environment set by the caller
     ctx = mp.get_context("spawn")
     with ctx.Pool(procs, initializer=_worker_init, initargs=(threads,)) as pool:
         return pool.map(fn, items, chunksize=chunksize)
